@@ -11,7 +11,7 @@ def scenario_cases(seed, tier):
     """(name, case, preexisting {relative final name: bytes}) - {plain, gzip, xz} x {single, rotations, onto existing, destroy +- buffered}"""
     out = []
     idx = 0
-    shapes = ['single', 'rot3', 'onto_existing', 'onto_current', 'empty_rotation', 'destroy_buffered', 'destroy_clean', 'part_unusable']
+    shapes = ['single', 'rot3', 'onto_existing', 'onto_current', 'empty_rotation', 'destroy_buffered', 'destroy_clean', 'part_unusable', 'long_strings']
     nvar = 1 if tier == 'quick' else 4
     for var in range(nvar):
         for comp in ('none', 'gzip', 'xz'):
@@ -49,6 +49,12 @@ def scenario_cases(seed, tier):
                     # file system's limit / a directory in the way): the rotation must fail; it must never write to the final name instead
                     ops += [{'op': 'rotate_bad', 'id': 'v1', 'export': True, 'how': 'longname' if idx % 2 else 'partdir'},
                             {'op': 'rotate', 'id': 'o2', 'export': False}] + recs(3) + [{'op': 'wb'}]
+                elif shape == 'long_strings':
+                    # strings longer than the encoder's staging buffer (an encoder may hand them to the writer directly)
+                    big = [{'op': 'qr', 'r': {'tid': 1, 'qname': gen.rbytes(r, 2500).hex(), 'ts': [1000, 5]}},
+                           {'op': 'mm', 'r': {'ts': [1000, 7], 'cport': 5, 'pl': gen.rbytes(r, 5000).hex()}},
+                           {'op': 'qr', 'r': {'tid': 2, 'optrd': gen.rbytes(r, 2049).hex(), 'sip': '0a000001'}}]
+                    ops = recs(2) + big + [{'op': 'wb'}] + recs(2) + big[1:2] + [{'op': 'rotate', 'id': 'o1', 'export': True}] + recs(2) + big[:1] + [{'op': 'wb'}]
                 elif shape == 'destroy_buffered':
                     ops += [{'op': 'wb'}] + recs(2)
                 elif shape == 'destroy_clean':
